@@ -23,7 +23,7 @@ from vlib.front import unparse, dotted, const_value, AnchorMissing
 from vlib.shape import Shape, Space, Ix, Q, D, BoolT, StrT, NoneT, SizeOf, UNK, is_unk, Arr, Rec, Tup, ListT, DictT, B
 from obligations.shape_tables import (model_attrs, M, Tmpl, Clu, Chan, Samp, Spike, AMP, AMPWH, CNT)
 
-FLOOR = 25
+FLOOR = 19
 EXPLANATION = ('shape engine over the curation methods of TemplateModel with callees inline (get_template, get_template_counts, '
                'get_cluster_spikes, _spikes_in_clusters): dictionary key/value kinds, array axes, alignment of weights with the averaged axis, '
                'scatter/gather index spaces; plus structural rules on the branch of _load_data')
@@ -58,7 +58,10 @@ def run(ctx):
         d, nan = res.items
         ctx.check(isinstance(d.key, Ix) and d.key.space is Clu, 'C08.A1', gm, 'map keys', 'the map is keyed by cluster ids', 'the map is keyed by %s, expected cluster ids' % d.key)
         ve = d.val.elem if isinstance(d.val, ListT) else None
-        ctx.check(isinstance(ve, Ix) and ve.space is Tmpl, 'C08.A1', gm, 'map values', 'the values are lists of template ids', 'the values are lists of %s, expected template ids' % ve)
+        if isinstance(ve, Ix):
+            ctx.check(ve.space is Tmpl, 'C08.A1', gm, 'map values', 'the values are lists of template ids', 'the values are lists of %s, expected template ids' % ve)
+        else:
+            ctx.undecided('C08.A1', gm, 'element kind of the map values not derived (%s)' % ve)
         ctx.check(isinstance(nan, Arr) and isinstance(nan.elem, Ix) and nan.elem.space is Clu, 'C08.A1', gm, 'empty ids', 'the empty-id list holds cluster ids', 'the empty-id list holds %s' % nan)
     else:
         ctx.undecided('C08.A1', gm, 'get_merge_map returns %s' % res)
@@ -67,7 +70,7 @@ def run(ctx):
     if not dc:
         ctx.undecided('C08.A1', gm, 'initialisation of the map (dictionary comprehension over the cluster ids) not recognised')
     else:
-        it = dc[0].generators[0].iter
+        it = gm.expand(dc[0].generators[0].iter)
         good = Pat().any(['range(np.max(self.spike_clusters) + 1)', 'range(self.spike_clusters.max() + 1)', 'range(int(np.max(self.spike_clusters)) + 1)', 'range(self.n_clusters)',
                           'np.arange(np.max(self.spike_clusters) + 1)'], it) and isinstance(dc[0].value, ast.List) and not dc[0].value.elts
         bad = not good and (Pat().any(['range(np.max(self.spike_clusters))', 'range(self.spike_clusters.max())', 'np.unique(self.spike_clusters)', 'self.cluster_ids', 'range(np.max(self.spike_templates) + 1)',
@@ -84,7 +87,7 @@ def run(ctx):
     else:
         it = loops[0].iter
         good = Pat().any(['np.unique(self.spike_templates)', 'self.template_ids', '_unique(self.spike_templates)', 'range(self.n_templates)', 'range(np.max(self.spike_templates) + 1)'], it)
-        bad = not good and Pat().any(['np.unique(self.spike_clusters)', 'self.cluster_ids', 'range(self.n_clusters)'], it)
+        bad = False     # iterating the clusters instead of the templates is a different but legitimate way to fill the map: not judged here
         if good:
             ctx.holds('C08.A1', gm, 'every template that has spikes is distributed', it)
         elif bad:
@@ -201,8 +204,18 @@ def run(ctx):
     else:
         ctx.undecided('C08.A2', cw, 'cluster_waveforms returns %s' % res)
     z = [c for c in cw.calls() if dotted(c.func) == 'np.zeros']
-    okz = bool(z) and unparse(z[0].args[0]).replace(' ', '').startswith(('(np.max(self.cluster_ids)+1,', '(self.cluster_ids.max()+1,', '(np.max(self.spike_clusters)+1,', '(self.spike_clusters.max()+1,'))
-    ctx.check(okz, 'C08.A2', cw, z[0] if z else 'cluster_waveforms', 'one (zero-initialised) waveform per cluster id up to the maximum', 'the array does not have max(cluster id) + 1 rows')
+    zx = cw.expand(z[0].args[0]) if z and z[0].args else None
+    first = zx.elts[0] if isinstance(zx, ast.Tuple) and zx.elts else None
+    okz = first is not None and Pat().any(['np.max(self.cluster_ids) + 1', 'self.cluster_ids.max() + 1', 'np.max(self.spike_clusters) + 1', 'self.spike_clusters.max() + 1',
+                                           'int(np.max(self.cluster_ids)) + 1', 'self.n_clusters'], first)
+    badz = first is not None and not okz and Pat().any(['len(self.cluster_ids)', 'np.max(self.cluster_ids)', 'self.cluster_ids.size', 'len(self.merge_map)', 'self.n_templates',
+                                                        'np.max(self.spike_templates) + 1', 'len(np.unique(self.spike_clusters))'], first)
+    if okz:
+        ctx.holds('C08.A2', cw, 'one (zero-initialised) waveform per cluster id up to the maximum', z[0])
+    elif badz:
+        ctx.violated('C08.A2', cw, z[0], 'the array has `%s` rows, not max(cluster id) + 1' % unparse(first))
+    else:
+        ctx.undecided('C08.A2', cw, 'number of rows of the cluster waveform array not recognised', z[0] if z else None)
     loopc = [f for f in cw.nodes(ast.For) if Pat().m('self.merge_map.items()', f.iter) and isinstance(f.target, ast.Tuple) and len(f.target.elts) == 2]
     if not loopc:
         ctx.undecided('C08.A2', cw, 'loop over self.merge_map.items() not recognised')
